@@ -34,6 +34,9 @@ type Check struct {
 	Replay func(scenario json.RawMessage) (violates bool, text string)
 	// Serial forces a single worker.
 	Serial bool
+	// Threads > 0: the check runs controlled threads (package sched); workers get
+	// GOMAXPROCS = Threads+1 and the pool is sized to the machine accordingly.
+	Threads int
 	// Variants lists the harness builds the check runs in ("" = default build;
 	// others are driver build variants such as "race", "nomemoize",
 	// "nomultiline", whose binaries the driver exports as VERIF_BIN_<variant>).
@@ -68,6 +71,13 @@ type workerOut struct {
 	Extra      map[string]any        `json:"extra"`
 }
 
+func gomaxprocs(ck *Check) string {
+	if ck.Threads > 0 {
+		return strconv.Itoa(ck.Threads + 1)
+	}
+	return "2"
+}
+
 // Ctx is handed to Check.Run.
 type Ctx struct {
 	Tier    string
@@ -83,6 +93,8 @@ type Ctx struct {
 	distinct map[uint64]struct{}
 	outcomes map[uint64]struct{}
 	hb       string
+	raceLog  string
+	raceOff  map[string]int
 	mu       sync.Mutex
 }
 
@@ -184,6 +196,29 @@ func (c *Ctx) Violation(sig, what string, scenario any) {
 		v.What, v.Scenario, v.Size = what, b, len(b)
 	}
 }
+
+// RaceReports returns the race detector reports written since the last call
+// (the runner points GORACE=log_path at a per-worker file). Empty in builds
+// without -race.
+func (c *Ctx) RaceReports() string {
+	matches, _ := filepath.Glob(c.raceLog + ".*")
+	var sb strings.Builder
+	for _, m := range matches {
+		b, err := os.ReadFile(m)
+		if err != nil {
+			continue
+		}
+		off := c.raceOff[m]
+		if len(b) > off {
+			sb.Write(b[off:])
+			c.raceOff[m] = len(b)
+		}
+	}
+	return sb.String()
+}
+
+// RaceSite extracts the first coraza frame of a race report.
+func RaceSite(report string) string { return raceSite(report) }
 
 // Heartbeat records (on disk) the case about to be executed, so that a
 // process-killing failure can be attributed.
@@ -290,7 +325,8 @@ func runWorker(args []string) int {
 	c := &Ctx{Tier: o.tier, Seed: o.seed, Worker: o.worker, Workers: o.workers, Verif: o.verif, Variant: o.variant,
 		Work:     filepath.Join(o.workdir, fmt.Sprintf("w%s%d", o.variant, o.worker)),
 		distinct: map[uint64]struct{}{}, outcomes: map[uint64]struct{}{},
-		hb: o.outFile + ".hb"}
+		hb: o.outFile + ".hb", raceLog: strings.TrimSuffix(o.outFile, ".json"), raceOff: map[string]int{}}
+	c.raceLog = filepath.Join(filepath.Dir(o.outFile), "race-"+strings.TrimSuffix(filepath.Base(o.outFile), ".json"))
 	_ = os.MkdirAll(c.Work, 0o755)
 	c.out.Counters = map[string]int64{}
 	c.out.Violations = map[string]*Violation{}
@@ -360,6 +396,16 @@ func runParent(args []string) int {
 	if len(variants) == 0 {
 		variants = []string{""}
 	}
+	if only := os.Getenv("VERIF_ONLY_VARIANT"); only != "" {
+		// debugging aid: restrict the run to one build variant ("default" = the default build)
+		if only == "default" {
+			only = ""
+		}
+		variants = []string{only}
+	}
+	if ck.Threads > 0 {
+		o.workers = o.workers * 2 / (ck.Threads + 1)
+	}
 	per := o.workers / len(variants)
 	if per < 1 {
 		per = 1
@@ -382,7 +428,8 @@ func runParent(args []string) int {
 				cmd := exec.Command(bin, "worker", "-check", o.check, "-tier", o.tier, "-workers", strconv.Itoa(per),
 					"-worker", strconv.Itoa(i), "-verif", o.verif, "-out", out, "-deadline", strconv.Itoa(o.deadline),
 					"-seed", strconv.FormatInt(o.seed, 10), "-workdir", work, "-variant", variant)
-				cmd.Env = append(os.Environ(), "GOMAXPROCS=2", "GOGC=400", "TMPDIR="+work)
+				cmd.Env = append(os.Environ(), "GOMAXPROCS="+gomaxprocs(ck), "GOGC=400", "TMPDIR="+work,
+					"GORACE=log_path="+filepath.Join(work, "race-"+name)+" history_size=2 exitcode=0")
 				var tail tailBuf
 				cmd.Stderr = &tail
 				cmd.Stdout = &tail
@@ -645,17 +692,49 @@ func crashClass(tail string) string {
 
 // raceSite returns the first coraza frame of a race report.
 func raceSite(tail string) string {
+	// A report has two access sections ("Write at"/"Read at", "Previous write at"/
+	// "Previous read at"). The root cause is named by the writing access: the first
+	// coraza frame of a write section (of the first section when both are writes).
+	first, firstWrite := "", ""
+	section := ""
 	for _, l := range strings.Split(tail, "\n") {
 		l = strings.TrimSpace(l)
-		if strings.Contains(l, "corazawaf/coraza/v3") && !strings.Contains(l, "internal/verif") && strings.HasSuffix(l, ")") {
+		switch {
+		case strings.HasPrefix(l, "Write at"), strings.HasPrefix(l, "Previous write at"), strings.HasPrefix(l, "Atomic write at"), strings.HasPrefix(l, "Previous atomic write at"):
+			section = "w"
+			continue
+		case strings.HasPrefix(l, "Read at"), strings.HasPrefix(l, "Previous read at"), strings.HasPrefix(l, "Atomic read at"), strings.HasPrefix(l, "Previous atomic read at"):
+			section = "r"
+			continue
+		case strings.HasPrefix(l, "Goroutine "):
+			section = "g"
+			continue
+		}
+		if section != "w" && section != "r" {
+			continue
+		}
+		if strings.HasPrefix(l, "github.com/corazawaf/coraza/v3") && !strings.Contains(l, "internal/verif") && strings.HasSuffix(l, ")") {
 			if i := strings.LastIndex(l, "/"); i >= 0 {
 				l = l[i+1:]
 			}
-			if i := strings.Index(l, "("); i >= 0 {
+			l = strings.TrimSuffix(l, "()")
+			if i := strings.Index(l, "["); i >= 0 {
 				l = l[:i]
 			}
-			return l
+			if first == "" {
+				first = l
+			}
+			if section == "w" && firstWrite == "" {
+				firstWrite = l
+			}
+			section = "done-" + section
 		}
+	}
+	if firstWrite != "" {
+		return "write in " + firstWrite
+	}
+	if first != "" {
+		return first
 	}
 	return "?"
 }
@@ -663,7 +742,7 @@ func raceSite(tail string) string {
 // NewCtxForReplay returns a context usable outside a worker (Replay functions
 // that share code with Run).
 func NewCtxForReplay() *Ctx {
-	c := &Ctx{Tier: "quick", Workers: 1, Verif: "/verif", Work: os.TempDir(), distinct: map[uint64]struct{}{}, outcomes: map[uint64]struct{}{}}
+	c := &Ctx{Tier: "quick", Workers: 1, Verif: "/verif", Work: os.TempDir(), distinct: map[uint64]struct{}{}, outcomes: map[uint64]struct{}{}, raceOff: map[string]int{}}
 	c.out.Counters = map[string]int64{}
 	c.out.Violations = map[string]*Violation{}
 	c.out.Extra = map[string]any{}
